@@ -181,7 +181,7 @@ theorem lookupEntryOKb_sound (d : DiscreteLookup) (h : lookupEntryOKb d = true) 
 
 def binWFb (e : BinEnc) : Bool :=
   match e.fixedSize, e.sizeRef, e.lookup with
-  | some n, none, none => n != 0 && e.useCal && e.adjuster.isNone
+  | some _, none, none => e.useCal && e.adjuster.isNone
   | none, some r, none => r != ""
   | none, none, some l => !l.isEmpty && l.all lookupEntryOKb && e.useCal && e.adjuster.isNone
   | _, _, _ => false
@@ -193,8 +193,8 @@ theorem binWFb_sound (e : BinEnc) (h : binWFb e = true) : BinWF e := by
   split at h
   · rename_i _ _ _ n
     simp only [Bool.and_eq_true, bne_iff_ne, ne_eq, Option.isNone_iff_eq_none] at h
-    obtain ⟨⟨hn, rfl⟩, rfl⟩ := h
-    exact BinWF.fixed n hn
+    obtain ⟨rfl, rfl⟩ := h
+    exact BinWF.fixed n
   · rename_i _ _ _ r
     exact BinWF.dynamic r (by simpa using h) uc adj
   · rename_i _ _ _ l
